@@ -17,15 +17,23 @@ Injective(f) == \A i, j \in DOMAIN f : i # j => f[i] # f[j]
 (* ------------------------------ djs_reject: set algebra ------------------------------ *)
 (* every (inmask, prev, residual-bad set, sticky, grow); the bad points are realised as   *)
 (* beyond-lower (i%3=1), beyond-maxdev only (i%3=2, sigma 2) and beyond-upper (i%3=0).     *)
+(* In the seeds with z = TRUE the lower/upper violators are exactly known points instead   *)
+(* (sigma = 0, residual -1 / +1, far inside the limits in absolute units) and the good     *)
+(* points at i%3 # 2 have sigma = 0 and a zero residual.                                   *)
 RejFullNs == IF Q THEN {3} ELSE {3, 4}       \* every (inmask, prev, bad set, sticky, grow)
 RejMidNs == IF Q THEN {} ELSE {5}            \* the same with grow in 1..2
 RejSparseNs == IF Q THEN {4} ELSE {6}        \* at most one bad point, grow >= 1
 GrowMax == 3
+RejZ(inmask, prev) == (Cardinality(inmask) + Cardinality(prev)) % 2 = 1
 RejCase(n, inmask, prev, B, sticky, grow) ==
   [kind |-> "reject", n |-> n,
-   diff |-> [i \in 1..n |-> OfInt(IF i \in B THEN (CASE i % 3 = 1 -> -10 [] i % 3 = 2 -> 8 [] OTHER -> 10)
-                                  ELSE (IF i % 2 = 0 THEN 1 ELSE -1))],
-   w |-> [i \in 1..n |-> IF i % 3 = 2 THEN R(1, 2) ELSE One],
+   diff |-> [i \in 1..n |-> OfInt(
+               IF RejZ(inmask, prev) /\ i % 3 # 2
+               THEN (IF i \in B THEN (IF i % 3 = 1 THEN -1 ELSE 1) ELSE 0)
+               ELSE (IF i \in B THEN (CASE i % 3 = 1 -> -10 [] i % 3 = 2 -> 8 [] OTHER -> 10)
+                     ELSE (IF i % 2 = 0 THEN 1 ELSE -1)))],
+   mode |-> "sigma",
+   scale |-> [i \in 1..n |-> IF i % 3 = 2 THEN OfInt(2) ELSE IF RejZ(inmask, prev) THEN Zero ELSE One],
    lower |-> Opt(TRUE, 5), upper |-> Opt(TRUE, 5), maxdev |-> Opt(TRUE, 7),
    inmask |-> inmask, prev |-> prev, sticky |-> sticky, grow |-> grow]
 RejSeed(n, inmask, prev, fam) == [kind |-> "seedrej", n |-> n, inmask |-> inmask, prev |-> prev, fam |-> fam]
@@ -46,19 +54,20 @@ StepReject ==
 (* limit present or absent.  lower = 5, upper = 4, maxdev = 7.                             *)
 NumD1 == {-15, -11, -10, -8, -7, -6, -5, -3, -2, 0, 2, 3, 4, 5, 7, 8, 9, 15}
 NumD2 == IF Q THEN {-11, 5, 8} ELSE {-11, -10, -6, -5, -3, 0, 2, 4, 5, 8, 9}
-NumW == {Zero, R(1, 2), One, OfInt(2)}
-NumCase(n, lims, grow, d, w) ==
-  [kind |-> "rejnum", n |-> n, diff |-> [i \in 1..n |-> OfInt(d[i])], w |-> w,
+NumW == {Zero, R(1, 2), One, OfInt(2)}     \* sigma, or sqrt(invvar)
+NumCase(n, lims, grow, d, mode, w) ==
+  [kind |-> "rejnum", n |-> n, diff |-> [i \in 1..n |-> OfInt(d[i])], mode |-> mode, scale |-> w,
    lower |-> Opt(lims[1], 5), upper |-> Opt(lims[2], 4), maxdev |-> Opt(lims[3], 7),
    inmask |-> 1..n, prev |-> 1..n, sticky |-> FALSE, grow |-> grow]
 RootRejnum ==
   \E n \in {1, 2} : \E lims \in BOOLEAN \X BOOLEAN \X BOOLEAN : \E g \in {0, 1} :
      /\ (n = 1 => g = 0)
-     /\ c' = [kind |-> "seednum", n |-> n, lims |-> lims, grow |-> g]
+     /\ \E mode \in {"sigma", "weight"} : c' = [kind |-> "seednum", n |-> n, lims |-> lims, grow |-> g, mode |-> mode]
 StepRejnum ==
   /\ c.kind = "seednum"
   /\ \E d \in [1..c.n -> IF c.n = 1 THEN NumD1 ELSE NumD2] : \E w \in [1..c.n -> NumW] :
-        c' = NumCase(c.n, c.lims, c.grow, d, w)
+        /\ c.mode = "weight" => \E i \in 1..c.n : w[i] = Zero   \* positive weights are the sigma cases (RejModesAgree)
+        /\ c' = NumCase(c.n, c.lims, c.grow, d, c.mode, w)
   /\ exp' = ExpectedReject(c')
 
 (* ------------------------------ djs_maskinterp, 1-D ---------------------------------- *)
@@ -152,9 +161,34 @@ RootSky ==
 StepSky ==
   /\ c.kind = "seedsky"
   /\ \E cl \in [1..c.nr -> [1..c.L -> c.cls]] :
-        c' = [kind |-> "sky", tbl |-> c.tbl, ngrow |-> c.ngrow, ivar |-> SkyIvar(c.nr, c.L),
+        c' = [kind |-> "sky", pat |-> "std", tbl |-> c.tbl, ngrow |-> c.ngrow, ivar |-> SkyIvar(c.nr, c.L),
               flags |-> [r \in 1..c.nr |-> [p \in 1..c.L |-> ClassBits(c.tbl, cl[r][p])]]]
   /\ exp' = [val |-> SkyMask(c'.ivar, c'.flags, c'.ngrow, c'.tbl)]
+
+(* wide dilations: every ngrow up to SkyWideMax on rows long enough to hold the whole window,  *)
+(* with isolated flagged pixels (no second flagged pixel inside the same 2*ngrow+1 window).   *)
+SkyWideMax == IF Q THEN 60 ELSE 130
+SkyWidePats == {"mid", "ends", "far", "pair"}
+WideLen(g, pat) == CASE pat = "mid" -> 2 * g + 3 [] pat = "ends" -> 2 * g + 3 [] pat = "far" -> 4 * g + 5 [] pat = "pair" -> 2 * g + 4
+WideFlags(t, g, pat) ==
+  [p \in 1..WideLen(g, pat) |->
+     CASE pat = "mid" -> (IF p = g + 2 THEN {t.REDMONSTER} ELSE IF p = 1 THEN {t.O1} ELSE {})
+       [] pat = "ends" -> (IF p = 1 THEN {t.BADSKYCHI} ELSE IF p = 2 * g + 3 THEN {t.REDMONSTER, t.O2} ELSE {})
+       [] pat = "far" -> (IF p = g + 2 THEN {t.BADSKYCHI, t.O1} ELSE IF p = 3 * g + 4 THEN {t.REDMONSTER} ELSE {})
+       [] pat = "pair" -> (IF p = g + 2 THEN {t.BADSKYCHI} ELSE IF p = g + 3 THEN {t.REDMONSTER} ELSE {})]
+RootSkyWide == \E t \in SkyTables : \E g \in 0..SkyWideMax : c' = [kind |-> "seedwide", tbl |-> t, ngrow |-> g]
+StepSkyWide ==
+  /\ c.kind = "seedwide"
+  /\ \E pat \in SkyWidePats :
+        c' = [kind |-> "sky", pat |-> pat, tbl |-> c.tbl, ngrow |-> c.ngrow, ivar |-> <<[p \in 1..WideLen(c.ngrow, pat) |-> 1 + (p % 7)]>>,
+              flags |-> <<WideFlags(c.tbl, c.ngrow, pat)>>]
+  /\ exp' = [val |-> SkyMask(c'.ivar, c'.flags, c'.ngrow, c'.tbl)]
+(* what the patterns are for: every flagged pixel is alone in its window, the dilations leave  *)
+(* unflagged pixels on the row ("mid": both end pixels; "ends": the centre; "far": three gaps) *)
+SkyWideShape ==
+  (c.kind = "sky" /\ c.pat \in {"mid", "ends", "far"}) =>
+     /\ \E p \in Idx(exp.val[1]) : exp.val[1][p] # 0
+     /\ \A p, q \in SkyFlagged(c.flags, c.tbl, 1) : p # q => Abs(p - q) > 2 * c.ngrow
 
 (* ------------------------------ the machine ------------------------------------------- *)
 Init == c = Root /\ exp = NoExp
@@ -168,9 +202,10 @@ RootStep ==
      \/ "median" \in Families /\ RootMedian
      \/ "median2" \in Families /\ RootMedian2
      \/ "sky" \in Families /\ RootSky
+     \/ "skywide" \in Families /\ RootSkyWide
   /\ exp' = NoExp
 Next == RootStep \/ StepReject \/ StepRejnum \/ StepInterp1 \/ StepInterpND \/ StepAesth
-        \/ StepMedian \/ StepMedian2 \/ StepSky
+        \/ StepMedian \/ StepMedian2 \/ StepSky \/ StepSkyWide
 
 IsRej == c.kind \in {"reject", "rejnum"}
 IsI1 == c.kind = "interp1"
@@ -190,6 +225,8 @@ C17_RejGrowWidth == IsRej => RejGrowWidth(c)
 C17_RejSecondPassDone == IsRej => RejSecondPassDone(c)
 C17_RejLimitsAbsent == IsRej => RejLimitsAbsentNoResidual(c)
 C17_RejZeroWeight == IsRej => RejZeroWeightOnlyDev(c)
+C17_RejZeroSigmaSign == IsRej => RejZeroSigmaSign(c)
+C17_RejModesAgree == IsRej => RejModesAgree(c)
 C17_RejExpectedAccepted == IsRej => (RejectOK(c, exp.gmax, exp.done) /\ RejectOK(c, exp.gmin, exp.donemin))
 C17_RejDevDiffers == (IsRej /\ c.grow = 0) => Dev_GrowIgnored(c) = GoodMax(c)
 
@@ -225,5 +262,6 @@ C17_SkyGrowMonotone == IsSky => SkyGrowMonotone(c.ivar, c.flags, c.ngrow, c.tbl)
 C17_SkyWidth == IsSky => SkyWidth(c.ivar, c.flags, c.ngrow, c.tbl)
 C17_SkyOtherBits == IsSky => SkyOtherBitsIrrelevant(c.ivar, c.flags, c.ngrow, c.tbl)
 C17_SkyRowsIndependent == IsSky => SkyRowsIndependent(c.ivar, c.flags, c.ngrow, c.tbl)
+C17_SkyWideIsolated == SkyWideShape
 C17_SkyOnlyZeroes == IsSky => SkyOnlyZeroes(c.ivar, c.flags, c.ngrow, c.tbl)
 =============================================================================
